@@ -839,7 +839,10 @@ def main(tier, replay=None):
         "closing context), with every single token deleted, and 1/3 duplicated / replaced; a small design truncated at every "
         "token; windows of library tokens placed in 17 parse contexts with 1-3 token mutations "
         "(delete/duplicate/insert/replace/truncate/swap/drop run); character-level library slices starting at unit keywords "
-        "with fuzz mutations; keyword/delimiter soup; arbitrary bytes decoded as Latin-1; non-Latin-1 streams; the resumed loop (0-3 pending context "
+        "with fuzz mutations; keyword/delimiter soup; arbitrary bytes decoded as Latin-1; non-Latin-1 streams; mixed-width lines "
+        "(1-5 characters outside the BMP in a block comment / string / stray before each of 16 literal and identifier kinds, followed "
+        "after 0-6 Latin-1 characters by a 2-, 3- or 4-byte character; plus random mixed-width lines) with the additional oracle that "
+        "the text carried by bit string and abstract literal tokens equals the source between their UTF-16 columns; the resumed loop (0-3 pending context "
         "items x 18 failing unit heads that stop at the next keyword x more items x a second failing head x 9 good units with "
         "the closing `;` kept, typed as `:` or missing x 5 trailers; sampled 1/6 in quick); every top-level catalogue entry "
         "ending in `:`; nesting depths 50/200/600/5000/20000/100000 of 28 "
